@@ -20,7 +20,7 @@ ASSUMPTIONS = [
 ]
 
 
-def make(rng, cls):
+def make(rng, cls, pick=None, force_mid=None):
     sc = Scenario([], prate=0)
     pre_items = [gen_core.gen_item(rng) for _ in range(rng.randint(0, 3))]
     frames, expected = [], []
@@ -32,6 +32,8 @@ def make(rng, cls):
     mid_text = False
     if cls == 'orphan-continuation':
         mid = False
+    if force_mid is not None:
+        mid = force_mid
     if mid:
         mid_text = rng.random() < 0.5
         first = gen_core.rand_text(rng, 3) if mid_text else gen_core.rand_bytes(rng, 3)
@@ -39,7 +41,7 @@ def make(rng, cls):
         if cls == 'bad-utf8-text' and not mid_text:
             mid_text = True
             frames[-1] = server_frame(1, b'abc', fin=0)
-    bad = gen_core.gen_violation(rng, cls, mid)
+    bad = gen_core.gen_violation(rng, cls, mid, pick)
     marker = b'SECRETMARKER'
     rest = b''.join(gen_core.serialise_item(rng, gen_core.Item('binary', marker + gen_core.rand_bytes(rng, 3)))) + \
         b''.join(gen_core.serialise_item(rng, gen_core.Item('text', b'LATERTEXT')))
@@ -102,6 +104,12 @@ def explore(res, tier, seed, model_ok=True):
             sc, exp, bad = make(rng, cls)
             scs.append(sc); meta.append((cls, exp, bad))
             res.count(cls)
+    # every invalid-UTF-8 payload of the list, as a whole text frame and as the final fragment of a fragmented text message
+    for pick in range(len(gen_core.BAD_UTF8_TEXTS)):
+        for fm in (False, True):
+            sc, exp, bad = make(rng, 'bad-utf8-text', pick, fm)
+            scs.append(sc); meta.append(('bad-utf8-text', exp, bad))
+            res.count('bad-utf8-text')
     pairs = coreutil.run_pairs(scs, model_ok)
     for (js, line, real, model), (cls, exp, bad) in zip(pairs, meta):
         if isinstance(real, dict):
